@@ -2,6 +2,7 @@ import KyberModel.Drive.Common
 import KyberModel.Groups.Scalar
 import KyberModel.Groups.Edwards
 import KyberModel.Groups.Weierstrass
+import KyberModel.Groups.Decode
 /-
 Handler `grp <group> <program>`: straight-line programs of group / scalar operations over a pool of
 variables, executed on the reference models (C01, C03, C05, C18). Value semantics: every statement
@@ -66,6 +67,18 @@ def decBlsG1 (bs : Bytes) : Option Weierstrass.Pt :=
     let big := flags % 2 = 1
     let y' := if (y > (p - 1) / 2) = big then y else p - y
     some (some (x, y'))
+
+/-- BN G2 (twist over Fp2, `Groups/Decode.lean`): the generator is given by its encoding as the Go source
+    marshals it; decoding of canonical encodings by the C04 decoder. -/
+def g2Ops (c : Fp2.Curve) (q : Nat) (dec : Bytes → Option Fp2.Pt) (baseHex : String) : GroupOps Fp2.Pt :=
+  { q := q, le := false, zero := none,
+    base := ((parseHexBytes? baseHex).bind dec).getD none,
+    add := Fp2.addPt c, neg := Fp2.negPt c, smul := Fp2.smul c, enc := Fp2.enc, dec := dec }
+
+def bn256G2Base : String :=
+  "2ecca446ff6f3d4d03c76e9b5c752f28bc37b364cb05ac4a37eb32e1c32459708f25386f72c9462b81597d65ae2092c4b97792155dcdaad32b8a6dd41792534c2db10ef5233b0fe3962b9ee6a4bbc2b5bde01a54f3513d42df972e128f31bf12274e5747e8cafacc3716cc8699db79b22f0e4ff3c23e898f694420a3be3087a5"
+def bn254G2Base : String :=
+  "198e9393920d483a7260bfb731fb5d25f1aa493335a9e71297e485b7aef312c21800deef121f1e76426a00665e5c4479674322d4f75edadd46debd5cd992f6ed090689d0585ff075ec9e99ad690c3395bc4b313370b38ef355acdadcd122975b12c85ea5db8c6deb4aab71808dcb408fe3d1e7690c43d37b4ce6cc0166fa7daa"
 
 structure PState (α : Type) where
   pts : List (Option α)
@@ -149,6 +162,8 @@ def handleGrp : List String → String
       runGrp (wOps BN254.curve BN254.n BN254.base BN254.enc (decXY BN254.curve 32 [])) prog
   | ["bls12381g1", prog] =>
       runGrp (wOps BLS12381.curve BLS12381.r BLS12381.base BLS12381.enc decBlsG1) prog
+  | ["bn256g2", prog] => runGrp (g2Ops BN256.twist BN256.n BN256.decG2 bn256G2Base) prog
+  | ["bn254g2", prog] => runGrp (g2Ops BN254.twist BN254.n BN254.decG2 bn254G2Base) prog
   | _ => badOp
 
 end Kyber.Drive
